@@ -187,6 +187,69 @@ func mkInput[T any](c codec[T], s []int, shape int) (val []T, parent []T) {
 	return encS(c, s), nil
 }
 
+// pairs of strings whose %v texts coincide for different values ({a b c}, {x y }): elements of a struct type, for the functions that
+// need no order (a Distinct keyed by the printed text would confuse them)
+type spair = frt.Tuple2[string, string]
+
+var pairTable = []spair{{E0: "a b", E1: "c"}, {E0: "a", E1: "b c"}, {E0: "x y", E1: ""}, {E0: "x", E1: "y "}, {E0: "", E1: "x y"}, {E0: "x", E1: " y"},
+	{E0: "q", E1: "r"}, {E0: "q r", E1: ""}, {E0: "", E1: "q r"}, {E0: "z", E1: "z"}}
+
+var pairCodec = codec[spair]{
+	func(i int) spair {
+		if i == junk {
+			return spair{E0: "junk", E1: "junk"}
+		}
+		if i < 0 || i >= len(pairTable) {
+			panic("drv: pair element out of range")
+		}
+		return pairTable[i]
+	},
+	func(p spair) int {
+		for i, q := range pairTable {
+			if p == q {
+				return i
+			}
+		}
+		if p == (spair{E0: "junk", E1: "junk"}) {
+			return junk
+		}
+		panic("drv: unknown pair element")
+	},
+}
+
+func runPairCase(cs Case, shape int) (out Out) {
+	c := pairCodec
+	out.Case = cs
+	out.Inst = "pair"
+	out.Shape = shape
+	out.Log = []int{}
+	out.After, out.After2, out.Parent0, out.Parent1 = []int{}, []int{}, []int{}, []int{}
+	out.AfterSs = [][]int{}
+	s, parent := mkInput(c, cs.S, shape)
+	if parent != nil {
+		out.Parent0 = decS(c, parent)
+	}
+	defer func() {
+		if r := recover(); r != nil {
+			out.Panic = fmt.Sprint(r)
+			out.Ret = "PANIC"
+		}
+		out.After = decS(c, s)
+		if parent != nil {
+			out.Parent1 = decS(c, parent)
+		}
+	}()
+	switch cs.Op {
+	case "Distinct":
+		out.Ret = decS(c, slice.Distinct(s))
+	case "Length":
+		out.Ret = slice.Length(s)
+	default:
+		panic("drv: op not available for pairs " + cs.Op)
+	}
+	return out
+}
+
 func runCase[T interface {
 	comparable
 	~int | ~string
@@ -449,6 +512,8 @@ func main() {
 				var o Out
 				if inst == "string" {
 					o = runCase(strCodec, cs, shape, inst)
+				} else if inst == "pair" {
+					o = runPairCase(cs, shape)
 				} else if inst == "xint" {
 					o = runCase(xintCodec, cs, shape, inst)
 				} else {
